@@ -1,12 +1,131 @@
-"""C21 -- Pipelined requests are processed one at a time, in order; notifyFinish fires exactly once: bounded stand-in (contracts/parts/C21_bounded.py); deductive contracts may be added later."""
-from contracts._parts import bounded, EXPLORATION_NOTE
+"""C21 -- Pipelined requests are processed one at a time, in order; notifyFinish fires exactly once.
 
-CONTRACTS = []
+Deductive: HTTPChannel.requestDone and HTTPChannel._finishRequestBody / allContentReceived are loop free.  For an arbitrary
+amount of pipelined data buffered while a request was being handled, requestDone is proved to drop exactly the finished
+request from the head of the queue (another request is refused with TypeError and nothing changes), and on a persistent
+connection to hand the buffered bytes -- all of them, in order, exactly once -- back to the line parser with the buffer
+emptied and the "handling" flag cleared, whatever the transport's pause state; on a non-persistent connection it closes
+and replays nothing.  allContentReceived marks the channel as handling a request and switches to raw mode *before* the
+request is dispatched, so bytes arriving during the call-out are buffered, not parsed.
+Bounded (contracts/parts/C21_bounded.py): pipelines through the real channel under every split and event script.
+"""
+from pyvc.api import *
+from pyvc import core
+from contracts._parts import bounded
+from twisted.web import http
+
+M = "twisted.web.http"
+
+
+def ev(S, name):
+    return [e for e in S.trace if e.name == name]
+
+
+CALLS = {
+    "HTTPChannel.setLineMode": callout("setLineMode"),
+    "HTTPChannel.setRawMode": callout("setRawMode"),
+    "HTTPChannel.setTimeout": callout("setTimeout"),
+    "HTTPChannel.loseConnection": callout("loseConnection"),
+}
+
+
+class RequestDone(Contract):
+    prop = "C21"
+    module = M
+    function = "HTTPChannel.requestDone"
+    differential = False
+    calls = CALLS
+    inputs = dict(buffered=Chunks(), persistent=ForkBool(), waiting=ForkBool(), saved=OneOf(None, 30), mine=ForkBool(),
+                  queued=OneOf(1, 2))
+
+    def setup(self, i):
+        reqs = [self.opaque("req%d" % k) for k in range(i.queued)]
+        other = self.opaque("other")
+        ch = self.make(http.HTTPChannel, requests=list(reqs), _waitingForTransport=bool(i.waiting),
+                       _networkProducer=self.opaque("producer"), persistent=bool(i.persistent), _handlingRequest=True,
+                       _savedTimeOut=i.saved, _dataBuffer=i.buffered)
+        return dict(self=ch, args=[reqs[0] if i.mine else other], objs=dict(ch=ch), ghost=dict(reqs=reqs, buffered=i.buffered))
+
+    def bounded_inputs(self, tier):
+        return iter(())  # opaque collaborators; the real channel is exercised by the bounded part
+
+    raises = {TypeError: lambda S: bnot(S.i.mine)}
+
+    def _done(S):
+        ch, reqs = S.new.ch, S.ghost["reqs"]
+        if S.exc is not None:
+            return band(len(S.trace) == 0, len(ch.requests) == len(reqs), ch._handlingRequest is True)
+        replay, lose, resume = ev(S, "setLineMode"), ev(S, "loseConnection"), ev(S, "producer.resumeProducing")
+        head_dropped = band(len(ch.requests) == len(reqs) - 1, *[a is b for a, b in zip(ch.requests, reqs[1:])])
+        resumed = len(resume) == (0 if S.i.waiting else 1)
+        if not S.i.persistent:
+            return band(head_dropped, resumed, len(lose) == 1, len(replay) == 0)
+        joined = S.ghost["buffered"]
+        joined = joined.joined if isinstance(joined, core.SChunks) else b"".join(joined)
+        left = ch._dataBuffer
+        emptied = (L(left.joined) == 0) if isinstance(left, core.SChunks) else (len(left) == 0)
+        return band(head_dropped, resumed, len(lose) == 0, ch._handlingRequest is False,
+                    # every buffered byte goes back to the parser, in order, exactly once
+                    len(replay) == 1, veq(replay[0].args[0], joined), emptied,
+                    # the replay happens after the flag is cleared (so the next request may start)
+                    replay[0].snap.ch._handlingRequest is False)
+
+    ensures = dict(head_request_dropped_and_buffer_replayed_once=_done)
+    canaries = [("self._dataBuffer = []", "pass", "head_request_dropped_and_buffer_replayed_once"),
+                ("del self.requests[0]", "del self.requests[-1]", "head_request_dropped_and_buffer_replayed_once")]
+
+
+class AllContentReceived(Contract):
+    prop = "C21"
+    module = M
+    function = "HTTPChannel.allContentReceived"
+    differential = False
+    calls = dict(CALLS, **{"req.requestReceived": callout("requestReceived")})
+    inputs = dict(timeout=OneOf(None, 60))
+
+    def setup(self, i):
+        req = self.opaque("req")
+        ch = self.make(http.HTTPChannel, requests=[req], _command=b"GET", _path=b"/", _version=b"HTTP/1.1", length=7,
+                       _receivedHeaderCount=3, _receivedHeaderSize=40, _transferDecoder=self.opaque("decoder"),
+                       timeOut=i.timeout, _handlingRequest=False, _savedTimeOut=None)
+        return dict(self=ch, args=[], objs=dict(ch=ch), ghost=dict(ch=ch, req=req))
+
+    def bounded_inputs(self, tier):
+        return iter(())
+
+    raises = ()
+
+    def _dispatch(S):
+        rr, raw = ev(S, "requestReceived"), ev(S, "setRawMode")
+        if len(rr) != 1 or len(raw) != 1:
+            return False
+        at = rr[0].snap.ch
+        return band(rr[0].target is S.ghost["req"], rr[0].args == (b"GET", b"/", b"HTTP/1.1"),
+                    # state at the moment the application is called: already "handling", in raw mode, framing state reset
+                    at._handlingRequest is True, S.trace.index(raw[0]) < S.trace.index(rr[0]),
+                    at._transferDecoder is None, at.length == 0, at._receivedHeaderCount == 0, at._receivedHeaderSize == 0,
+                    S.trace[-1] is rr[0])
+
+    ensures = dict(marked_handling_and_raw_before_dispatch=_dispatch)
+    canaries = [("self._handlingRequest = True", "self._handlingRequest = False", "marked_handling_and_raw_before_dispatch")]
+
+
+CONTRACTS = [RequestDone, AllContentReceived]
 BOUNDED = bounded("C21")
-NOTES = dict(explanation='the real HTTPChannel / http.Request (bare and under server.Site) on a TCP-like transport double: every 2-way and boundary 3-way split of pipelines of up to 3 requests, every event script of deliver / write / finish / pause / resume / connection loss (loss injected at every event boundary), wire parsed by an independent RFC 7230 response parser', not_covered=["deductive contracts on the anchored functions (not built)"])
+_SCOPE = ('the real HTTPChannel / http.Request (bare and under server.Site) on a TCP-like transport double: every 2-way and boundary 3-way split of pipelines of up to 3 requests, every event script of deliver / write / finish / pause / resume / connection loss (loss injected at every event boundary), wire parsed by an independent RFC 7230 response parser')
+NOTES = dict(explanation="requestDone / allContentReceived proved for arbitrary buffered pipelined data; whole pipelines bounded: " + _SCOPE,
+             not_covered=["Request.finish / notifyFinish / connectionLost as deductive contracts (bounded tier only)",
+                          "LineReceiver.dataReceived's buffering while in raw mode (C16 covers the receivers separately)"])
 MANIFEST = dict(
-    category="exploration",
-    text="Bounded stand-in only, on the real code: " + 'the real HTTPChannel / http.Request (bare and under server.Site) on a TCP-like transport double: every 2-way and boundary 3-way split of pipelines of up to 3 requests, every event script of deliver / write / finish / pause / resume / connection loss (loss injected at every event boundary), wire parsed by an independent RFC 7230 response parser' + ".",
-    note=EXPLORATION_NOTE,
-    technique="bounded exhaustive evaluation of an executable contract on the real code (stand-in; not proved)",
+    category="proof",
+    text="HTTPChannel.requestDone is proved, for any amount of pipelined data buffered during a request, to accept only "
+         "the request at the head of the queue (TypeError otherwise, nothing changed), to drop exactly it, to resume the "
+         "network producer unless the transport is paused, and on a persistent connection to clear the handling flag and "
+         "hand all buffered bytes, in order, exactly once, back to the line parser with the buffer emptied (on a "
+         "non-persistent one: close, replay nothing).  HTTPChannel.allContentReceived is proved to set the handling flag, "
+         "reset the framing state and switch to raw mode before the request is dispatched to the application.  Whole "
+         "pipelines and notifyFinish are exercised in the bounded tier only: " + _SCOPE + ".",
+    note="Trusted: pyvc, SMT solvers, setLineMode / setRawMode / setTimeout / loseConnection / producer as call-outs. "
+         "Everything else: bounded, never counted as proved.",
+    technique="contract-based deductive verification (exhaustive symbolic execution of loop-free methods, call-out traces with state snapshots) + bounded exhaustive pipelines",
 )
